@@ -11,14 +11,14 @@ use subtle::{
 impl<const BITS: usize, const LIMBS: usize> Uint<BITS, LIMBS> {
     /// Returns a [`Choice`] if the bit at index is set.
     ///
-    /// Constant time version of [`Uint::bit`]
-    ///
-    /// # Panics
-    ///
-    /// Panics if `index >= Self::BITS`.
+    /// Constant time (in the value, not in the index) version of
+    /// [`Uint::bit`]. Like [`Uint::bit`] it returns false when
+    /// `index >= Self::BITS`.
     #[must_use]
     pub fn bit_ct(&self, index: usize) -> Choice {
-        assert!(index < BITS);
+        if index >= BITS {
+            return Choice::from(0);
+        }
         let (limbs, bits) = (index / 64, index % 64);
         (self.limbs[limbs] & (1 << bits)).ct_eq(&(1 << bits))
     }
